@@ -455,4 +455,19 @@ theorem connOf_open_data (r : Rd) (stream : Bytes) (e : EndK) (h : (connOf r str
       | none => simp [h1, h2, rejectObs] at h
       | some da => simp [h1, h2]
 
+theorem resolve_other (fam : UInt8) (ip : Option Bytes) (p : Nat) (h4 : fam ≠ 0x11) (h6 : fam ≠ 0x21) :
+    resolve fam ip p = none := by
+  unfold resolve; cases ip <;> simp [h4, h6]
+
+theorem readHeader_sig_prefix (env : Env) (a : Bool) (k : Nat) (hk : k < 12) :
+    readHeader env (sigV2.take k) a = .err := by
+  have : k = 0 ∨ k = 1 ∨ k = 2 ∨ k = 3 ∨ k = 4 ∨ k = 5 ∨ k = 6 ∨ k = 7 ∨ k = 8 ∨ k = 9 ∨ k = 10 ∨ k = 11 := by omega
+  rcases this with h|h|h|h|h|h|h|h|h|h|h|h <;> subst h <;> simp [readHeader, sigV2, sigV1]
+
+theorem len_of_hi_lo (n m : Nat) (hn : n < 65536) (hm : m < 65536) (h1 : hi8 n = hi8 m) (h2 : lo8 n = lo8 m) : n = m := by
+  have a := be16_hi_lo n hn
+  have b := be16_hi_lo m hm
+  rw [h1, h2] at a
+  omega
+
 end BfeVerif.C46
